@@ -24,6 +24,17 @@ type Case struct {
 	Layers    []*vx.Node `json:"layers"`
 	Envs      []*vx.Node `json:"envs,omitempty"`
 	Resolvers [][]vx.KV  `json:"resolvers,omitempty"`
+	// Later: after all reads the surroundings change while the Option values (built once) stay the same: the
+	// resolvers answer from other tables, settings are merged into the Env configs; then everything is read again
+	Later *Later `json:"later,omitempty"`
+	// ReadNoSep: the configuration is merged with PathSep(".") but read without a PathSep option (top-level names
+	// and a child handle only): the names of references were bound when the strings were merged
+	ReadNoSep bool `json:"read_nosep,omitempty"`
+}
+
+type Later struct {
+	Resolvers [][]vx.KV  `json:"resolvers,omitempty"`
+	EnvLayers []*vx.Node `json:"env_layers,omitempty"`
 }
 
 func genCase(t *rapid.T) Case {
@@ -53,6 +64,16 @@ func genCase(t *rapid.T) Case {
 	for i, n := 0, rapid.IntRange(0, 3).Draw(t, "nres"); i < n; i++ {
 		c.Resolvers = append(c.Resolvers, g.GenResolver(t))
 	}
+	if len(c.Envs)+len(c.Resolvers) > 0 && rapid.IntRange(0, 2).Draw(t, "later") == 0 {
+		c.Later = &Later{}
+		for range c.Resolvers {
+			c.Later.Resolvers = append(c.Later.Resolvers, g.GenResolver(t))
+		}
+		for range c.Envs {
+			c.Later.EnvLayers = append(c.Later.EnvLayers, g.GenEnvLayer(t))
+		}
+	}
+	c.ReadNoSep = rapid.IntRange(0, 3).Draw(t, "readnosep") == 0
 	if rapid.IntRange(0, 7).Draw(t, "samename") == 0 {
 		// the same name computed in the own tree and in an Env config, both reached within one read: each
 		// reference is looked up in the tree the referencing setting lives in first
@@ -139,6 +160,10 @@ func altOnEmpty(root *vx.Node) bool {
 	return root.AnyPart(func(p *vx.Part) bool { return p.IsVar && p.Op == ":+" })
 }
 
+func hasEmptyWorld(w *vx.World, root *vx.Node) bool {
+	return hasEmpty(Case{Envs: w.Envs, Resolvers: w.Resolvers}, root)
+}
+
 func hasEmpty(c Case, root *vx.Node) bool {
 	found := false
 	var walk func(n *vx.Node)
@@ -195,9 +220,14 @@ func earlyBound(old, layer *vx.Node) bool {
 }
 
 func runCase(c Case, r *runlog.R) error {
-	opts, err := vx.Options(c.Envs, c.Resolvers)
+	live, err := vx.OptionsLive(c.Envs, c.Resolvers)
 	if err != nil {
 		return err
+	}
+	opts := live.Opts
+	readOpts := opts
+	if c.ReadNoSep {
+		readOpts = live.NoSep()
 	}
 	cfg := ucfg.New()
 	var root *vx.Node
@@ -221,72 +251,117 @@ func runCase(c Case, r *runlog.R) error {
 			root = vx.MergeModel(root, layer)
 		}
 		w := &vx.World{Root: root, Envs: c.Envs, Resolvers: c.Resolvers}
-		amb := altOnEmpty(root) && hasEmpty(c, root)
-		for i, k := range root.Keys {
-			setting := root.Vals[i]
-			w.Reset()
-			want, werr := w.Eval(setting)
-			if w.SawCycle {
-				r.Class("field read re-enters a reference (left to C08)")
-				continue
-			}
-			got, gerr := unpackField(cfg, k, opts)
-			if err := check(fmt.Sprintf("after layer %d: Unpack of %q", li, k), got, gerr, want, werr, amb); err != nil {
-				return err
-			}
-			if w.FromEnv || w.FromResolver || w.LeftUnset || w.Shadowed || li > 0 {
-				nt = true
-			}
-			r.ClassIf(w.FromEnv, "name found in an Env config")
-			r.ClassIf(w.FromResolver, "name provided by a resolver")
-			r.ClassIf(w.LeftUnset, "operator with unset/empty left side")
-			r.ClassIf(w.Shadowed, "name present in several layers")
-			r.ClassIf(werr != nil, "model: read fails")
-			r.ClassIf(werr == nil, "model: read succeeds")
-			// typed getter
-			if setting.K != "obj" && setting.K != "list" {
-				w.Reset()
-				ws, wserr := w.EvalString(setting)
-				if !w.SawCycle {
-					var gs string
-					var gserr error
-					e := uc.Safe("String", func() error { gs, gserr = cfg.String(k, -1, opts...); return nil })
-					if e != nil {
-						return e
-					}
-					if err := check(fmt.Sprintf("after layer %d: String(%q)", li, k), gs, gserr, ws, wserr, amb); err != nil {
-						return err
-					}
-				}
-			}
+		n, err := readAll(fmt.Sprintf("after layer %d", li), c, cfg, root, w, readOpts, li > 0, r)
+		if err != nil {
+			return err
 		}
-		// through a child handle: o.x / o.y are read relative to the child, references still resolve from the root
-		if o := root.Get("o"); o != nil && o.K == "obj" {
-			var child *ucfg.Config
-			var cerr error
-			if e := uc.Safe("Child", func() error { child, cerr = cfg.Child("o", -1, opts...); return nil }); e != nil {
-				return e
-			}
-			if cerr != nil {
-				return fmt.Errorf("after layer %d: Child(\"o\") failed: %v", li, cerr)
-			}
-			for i, k := range o.Keys {
-				w.Reset()
-				want, werr := w.Eval(o.Vals[i])
-				if w.SawCycle {
-					continue
-				}
-				got, gerr := unpackField(child, k, opts)
-				if err := check(fmt.Sprintf("after layer %d: Unpack of %q through the child handle of \"o\"", li, k), got, gerr, want, werr, amb); err != nil {
-					return err
-				}
-				r.Class("read through a child handle")
-			}
-		}
+		nt = nt || n
 		r.ClassIf(li > 0, "read after a later merge")
 	}
+	if c.Later != nil && root != nil {
+		// the surroundings change, the Option values stay: every read yields the CURRENT values
+		envs := append([]*vx.Node(nil), c.Envs...)
+		for i, l := range c.Later.EnvLayers {
+			if i >= len(envs) || l == nil || len(l.Keys) == 0 {
+				continue
+			}
+			if err := uc.Safe("Merge", func() error { return live.EnvCfgs[i].Merge(l.Go(), ucfg.PathSep("."), ucfg.VarExp) }); err != nil {
+				return fmt.Errorf("merging into Env config %d failed: %v", i, err)
+			}
+			envs[i] = vx.MergeModel(envs[i].Clone(), l)
+		}
+		for i, t := range c.Later.Resolvers {
+			if i < len(live.Tables) {
+				live.Tables[i] = t
+			}
+		}
+		w := &vx.World{Root: root, Envs: envs, Resolvers: live.Tables}
+		n, err := readAll("after the resolvers' answers and the Env configs changed (same Option values)", c, cfg, root, w, readOpts, true, r)
+		if err != nil {
+			return err
+		}
+		nt = nt || n
+		r.Class("read again after resolvers and Env configs changed")
+	}
+	r.ClassIf(c.ReadNoSep, "merged with PathSep, read without")
 	r.NonTrivialIf(nt)
 	return nil
+}
+
+// readAll reads every setting through Unpack, the String getter and a child handle and compares with the model.
+func readAll(when string, c Case, cfg *ucfg.Config, root *vx.Node, w *vx.World, opts []ucfg.Option, later bool, r *runlog.R) (bool, error) {
+	nt := false
+	amb := altOnEmpty(root) && hasEmptyWorld(w, root)
+	for i, k := range root.Keys {
+		setting := root.Vals[i]
+		w.Reset()
+		want, werr := w.Eval(setting)
+		if w.SawCycle {
+			r.Class("field read re-enters a reference (left to C08)")
+			continue
+		}
+		if c.ReadNoSep && w.ComputedDotted {
+			r.Class("computed dotted name read without PathSep (not asserted)")
+			continue
+		}
+		if w.ThroughExpr {
+			r.Class("name leads through an expression (lookups in evaluated values are not modelled)")
+			continue
+		}
+		got, gerr := unpackField(cfg, k, opts)
+		if err := check(fmt.Sprintf("%s: Unpack of %q", when, k), got, gerr, want, werr, amb); err != nil {
+			return false, err
+		}
+		if w.FromEnv || w.FromResolver || w.LeftUnset || w.Shadowed || later {
+			nt = true
+		}
+		r.ClassIf(w.FromEnv, "name found in an Env config")
+		r.ClassIf(w.FromResolver, "name provided by a resolver")
+		r.ClassIf(w.LeftUnset, "operator with unset/empty left side")
+		r.ClassIf(w.Shadowed, "name present in several layers")
+		r.ClassIf(werr != nil, "model: read fails")
+		r.ClassIf(werr == nil, "model: read succeeds")
+		// typed getter
+		if setting.K != "obj" && setting.K != "list" {
+			w.Reset()
+			ws, wserr := w.EvalString(setting)
+			if !w.SawCycle && !w.ThroughExpr {
+				var gs string
+				var gserr error
+				e := uc.Safe("String", func() error { gs, gserr = cfg.String(k, -1, opts...); return nil })
+				if e != nil {
+					return false, e
+				}
+				if err := check(fmt.Sprintf("%s: String(%q)", when, k), gs, gserr, ws, wserr, amb); err != nil {
+					return false, err
+				}
+			}
+		}
+	}
+	// through a child handle: o.x / o.y are read relative to the child, references still resolve from the root
+	if o := root.Get("o"); o != nil && o.K == "obj" {
+		var child *ucfg.Config
+		var cerr error
+		if e := uc.Safe("Child", func() error { child, cerr = cfg.Child("o", -1, opts...); return nil }); e != nil {
+			return false, e
+		}
+		if cerr != nil {
+			return false, fmt.Errorf("%s: Child(\"o\") failed: %v", when, cerr)
+		}
+		for i, k := range o.Keys {
+			w.Reset()
+			want, werr := w.Eval(o.Vals[i])
+			if w.SawCycle || w.ThroughExpr || (c.ReadNoSep && w.ComputedDotted) {
+				continue
+			}
+			got, gerr := unpackField(child, k, opts)
+			if err := check(fmt.Sprintf("%s: Unpack of %q through the child handle of \"o\"", when, k), got, gerr, want, werr, amb); err != nil {
+				return false, err
+			}
+			r.Class("read through a child handle")
+		}
+	}
+	return nt, nil
 }
 
 var subExpand = runlog.Register(&runlog.Sub[Case]{
